@@ -9240,6 +9240,10 @@ eval_unary_expr(const struct lyxp_expr *exp, uint32_t *tok_idx, uint32_t repeat,
             rc = moveto_op_math(set, NULL, &exp->expr[exp->tok_pos[this_op]]);
             LY_CHECK_RET(rc);
         }
+    } else if (!(options & (LYXP_SKIP_EXPR | LYXP_SCNODE_ALL))) {
+        /* even number of negations, the result is still a number */
+        rc = lyxp_set_cast(set, LYXP_SET_NUMBER);
+        LY_CHECK_RET(rc);
     }
 
     return LY_SUCCESS;
